@@ -341,8 +341,8 @@ func discharge(groups []*Group, workDir string, timeout int, confirm bool, worke
 			if groups[j.i].Kind == "cover-call" && t1 > 3 {
 				t1 = 3
 			}
-			if len(groups[j.i].Obls) > 1 && groups[j.i].Kind != "cover" && groups[j.i].Kind != "cover-call" && t1 > 6 {
-				t1 = 6 // undecided groups are retried path by path with the full timeout
+			if len(groups[j.i].Obls) > 1 && groups[j.i].Kind != "cover" && groups[j.i].Kind != "cover-call" && t1 > 8 {
+				t1 = 8 // undecided groups are retried path by path with the full timeout
 			}
 			v, s, out, secs, conf, dis := race2(j.query, j.file, j.fileB, t1, confirm)
 			if os.Getenv("GOVC_FORCE_SPLIT") != "" && len(groups[j.i].Obls) > 1 && groups[j.i].Kind != "cover" && groups[j.i].Kind != "cover-call" {
